@@ -108,6 +108,7 @@ const OPS: &[&str] = &[
     "negate", "row", "row_iter", "remove_rows", "remove_zero_rows", "remove_zero_columns", "from_row_iter",
     "from_mats", "view", "to_owned", "as_polytope", "as_function", "poly_new", "convert_leq", "convert_biasleq0",
     "convert_geq", "convert_biasgeq0", "apply", "translation", "subtraction", "remove_zero_columns", "add", "mul",
+    "apply_transpose", "reset_row",
 ];
 
 fn binop_variants(op: &str, f: &AffFunc, g: &AffFunc) -> (Vec<String>, Option<AffFunc>) {
@@ -477,6 +478,57 @@ fn one_case(r: &mut Rng, id: usize, out: &mut String) {
                 _ => PolyRepr::MatrixBiasGeqZero,
             };
             let (s1, a) = rf("r", || p.clone().convert_to(repr));
+            res.push(s1);
+            primary = a;
+        }
+        "apply_transpose" => {
+            // mat.T (y - bias); a third of the functions are signed permutations + offset (orthogonal: the inverse),
+            // then y = f(x) for a lattice point x; malformed: y of another length (a 1-entry y is broadcast by ndarray)
+            let orth = r.chance(1, 3) && !mal;
+            let f = if orth {
+                let mut mt = Array2::<f64>::zeros((n, n));
+                let mut perm: Vec<usize> = (0..n).collect();
+                for i in (1..n).rev() {
+                    let j = r.below(i + 1);
+                    perm.swap(i, j);
+                }
+                for i in 0..n {
+                    mt[[i, perm[i]]] = if r.chance(1, 2) { 1.0 } else { -1.0 };
+                }
+                AffFunc::from_mats(mt, gen_point(r, n))
+            } else {
+                gen_aff(r, m, n, 8)
+            };
+            let mo = f.outdim();
+            let y = if orth {
+                f.apply(&gen_point(r, n))
+            } else {
+                let len = if mal { other_dim(r, mo) } else { mo };
+                gen_point(r, len)
+            };
+            args.push(sx_aff(&f));
+            args.push(a_v(&y));
+            args.push(a_n(orth as usize));
+            res.push(match catch(AssertUnwindSafe(|| f.apply_transpose(&y))) {
+                Ok(v) => format!("(own ok {})", sx_vec(&v)),
+                Err(_) => "(own panic -)".to_string(),
+            });
+            res.push(match catch(AssertUnwindSafe(|| f.view().apply_transpose(&y.view()))) {
+                Ok(v) => format!("(view ok {})", sx_vec(&v)),
+                Err(_) => "(view panic -)".to_string(),
+            });
+            with_pts = false;
+        }
+        "reset_row" => {
+            let f = gen_aff(r, m, n, 8);
+            let i = if mal || m == 0 { m + r.below(2) } else { r.below(m) };
+            args.push(sx_aff(&f));
+            args.push(a_n(i));
+            let (s1, a) = rf("r", || {
+                let mut g = f.clone();
+                g.reset_row(i);
+                g
+            });
             res.push(s1);
             primary = a;
         }
